@@ -122,7 +122,3 @@ func cmdProve(args []string) {
 	fmt.Printf("total %.1fs, %d failed\n", time.Since(t0).Seconds(), nfail)
 }
 
-func cmdCheck(args []string) {
-	fmt.Fprintln(os.Stderr, "check: not built yet")
-	os.Exit(2)
-}
